@@ -17,6 +17,14 @@ type DispatchProfile struct {
 
 var biasedStatuses = []int{200, 200, 201, 204, 299, 199, 100, 101, 300, 301, 304, 399, 400, 401, 404, 407, 408, 409, 428, 429, 430, 499, 500, 502, 503, 599}
 
+// genLongRetry: a retry budget long enough to walk the exponential schedule far
+// beyond the cap (attempt numbers in the dozens).
+func genLongRetry(t *rapid.T) *RetrySpec {
+	base := rapid.SampledFrom([]time.Duration{time.Second, 2 * time.Second, time.Minute}).Draw(t, "lbase")
+	return &RetrySpec{Max: rapid.SampledFrom([]int{36, 40, 64, 70}).Draw(t, "lmax"), Base: base,
+		Cap: rapid.SampledFrom([]time.Duration{2 * time.Minute, time.Hour}).Draw(t, "lcap"), Jitter: rapid.SampledFrom([]float64{0, 0.2}).Draw(t, "ljitter")}
+}
+
 func genRetry(t *rapid.T) *RetrySpec {
 	base := rapid.SampledFrom([]time.Duration{500 * time.Millisecond, time.Second, 2 * time.Second}).Draw(t, "base")
 	capv := rapid.SampledFrom([]time.Duration{base, 2 * base, 3 * base, 30 * time.Second}).Draw(t, "cap")
@@ -170,6 +178,13 @@ func GenDispatchProgram(t *rapid.T, prof DispatchProfile) *Program {
 		} else {
 			sys.Scripts[h] = []NetAction{{Kind: "status", Status: 200}}
 		}
+	}
+	if !prof.Egress && !prof.Sign && rapid.IntRange(0, 11).Draw(t, "long_retry?") == 0 {
+		// one persistently failing target with a long retry budget
+		spec.Routes = spec.Routes[:1]
+		spec.Routes[0].Deliver = []DeliverSpec{{URL: "https://t0.example/hook0", Retry: genLongRetry(t)}}
+		spec.Routes[0].Concurrency = 1
+		sys.Scripts["t0.example"] = []NetAction{{Kind: "status", Status: rapid.SampledFrom([]int{503, 500, 429, 408}).Draw(t, "sticky")}}
 	}
 	p.Sys, _ = json.Marshal(sys)
 	p.Offset = rapid.SampledFrom([]int64{0, 500_000_000}).Draw(t, "clock_offset")
